@@ -10,7 +10,7 @@
 From Coq Require Import ZArith NArith List Bool Arith Sorted.
 Require Import Yui.Model.Table Yui.Model.Cli.
 Require Import Yui.Proofs.C20Str Yui.Proofs.C20Layout Yui.Proofs.C20Table Yui.Proofs.C20Rmod
-               Yui.Proofs.C20Print Yui.Proofs.C20Cli Yui.Proofs.C20Final.
+               Yui.Proofs.C20Print Yui.Proofs.C20Cli Yui.Proofs.C20Final Yui.Proofs.C20Pair.
 Import ListNotations.
 
 (* ================= 1. every option combination is classified ================= *)
@@ -77,6 +77,30 @@ Theorem C20_decide_integer : forall cmd ty z reduced, is_scalar ty = true ->
     else DError EParse.
 Proof. exact decide_integer. Qed.
 Print Assumptions C20_decide_integer.
+
+(* -c <a>,<b>, for ALL pairs of integers (pair_str a b = the decimal a, a comma, the decimal b): scalar ring,
+   h = a and t = b (mod p over F_p); -r with t <> 0 in the ring is the guard error; `kh` prints the bigraded
+   table iff BOTH constants vanish in the ring (kh.rs: h.is_zero() && t.is_zero()), otherwise the sequence:
+   Lee-type theories `-c 0,1`, `-c 0,2`, `-t F2 -c 2,1` are sequences, `-t F2 -c 0,2` is bigraded *)
+Theorem C20_decide_int_pair : forall cmd ty a b reduced, is_scalar ty = true ->
+  decide cmd ty (pair_str a b) reduced =
+    if in_range ty a && in_range ty b
+    then if reduced && negb (reduce ty b =? 0)%Z then DError EGuardReduced
+         else DCompute (mk_params (Ring (base_of ty) PV_None) (VInt (reduce ty a)) (VInt (reduce ty b)) reduced
+                match cmd with
+                | Ckh => DGrid
+                | Kh => if (reduce ty a =? 0)%Z && (reduce ty b =? 0)%Z then DBigraded else DSeq
+                end)
+    else DError EParse.
+Proof. exact decide_int_pair. Qed.
+Print Assumptions C20_decide_int_pair.
+
+Theorem C20_kh_int_pair_bigraded_iff : forall ty a b reduced p, is_scalar ty = true ->
+  decide Kh ty (pair_str a b) reduced = DCompute p ->
+  (p_display p = DBigraded <-> reduce ty a = 0%Z /\ reduce ty b = 0%Z) /\
+  (p_display p = DSeq <-> ~ (reduce ty a = 0%Z /\ reduce ty b = 0%Z)).
+Proof. exact kh_int_pair_bigraded_iff. Qed.
+Print Assumptions C20_kh_int_pair_bigraded_iff.
 
 Theorem C20_int_print_parse : forall z, parse_Z_dec (str_of_Z z) = Some z.
 Proof. exact parse_Z_dec_str_of_Z. Qed.
@@ -304,4 +328,19 @@ Example C20_integer_boundary :
     DCompute (mk_params (Ring BZ PV_None) (VInt (2 ^ 63 - 1)) (VInt 0) false DSeq) /\
   decide Kh TZ (str_of_Z (2 ^ 63)) false = DError EParse /\
   decide Ckh TF3 (str_of_Z (-4)) true = DCompute (mk_params (Ring BF3 PV_None) (VInt 2) (VInt 0) true DGrid).
+Proof. repeat split; vm_compute; reflexivity. Qed.
+
+(* constant pairs: zero-ness is decided in the ring (2 = 0 in F2, 3 = 0 in F3); h = 0 with a non-zero
+   constant t is a sequence, not a bigraded table *)
+Example C20_constant_pairs :
+  pair_str 0 1 = [48; 44; 49]%N /\ pair_str 0 (-1) = [48; 44; 45; 49]%N /\
+  decide Kh TQ (pair_str 0 1) false = DCompute (mk_params (Ring BQ PV_None) (VInt 0) (VInt 1) false DSeq) /\
+  decide Kh TZ (pair_str 0 2) false = DCompute (mk_params (Ring BZ PV_None) (VInt 0) (VInt 2) false DSeq) /\
+  decide Kh TF2 (pair_str 0 2) false = DCompute (mk_params (Ring BF2 PV_None) (VInt 0) (VInt 0) false DBigraded) /\
+  decide Kh TF2 (pair_str 2 1) false = DCompute (mk_params (Ring BF2 PV_None) (VInt 0) (VInt 1) false DSeq) /\
+  decide Kh TF3 (pair_str 2 3) true = DCompute (mk_params (Ring BF3 PV_None) (VInt 2) (VInt 0) true DSeq) /\
+  decide Kh TF3 (pair_str 3 3) true = DCompute (mk_params (Ring BF3 PV_None) (VInt 0) (VInt 0) true DBigraded) /\
+  decide Kh TF3 (pair_str 0 (-1)) false = DCompute (mk_params (Ring BF3 PV_None) (VInt 0) (VInt 2) false DSeq) /\
+  decide Kh TZ (pair_str 0 (-1)) true = DError EGuardReduced /\
+  decide Ckh TF2 (pair_str 2 3) false = DCompute (mk_params (Ring BF2 PV_None) (VInt 0) (VInt 1) false DGrid).
 Proof. repeat split; vm_compute; reflexivity. Qed.
